@@ -882,6 +882,109 @@ Proof.
   vm_compute in H. discriminate.
 Qed.
 
+(* ------------------------------------------------------------------ one commit per block *)
+(* The block-owned keys (flat entries, per-block records) are touched by exactly one top-level write
+   of an append: the block batch; by at most one of a rollback step: the rollback batch; by none of
+   the store writes. This is the predicate of the harness' write-log monitor, as a theorem of the
+   model; the static facts below tie it to the source: nobody who borrows the batch commits it. *)
+Lemma has_key_owned_put_ops l : has_key is_owned (put_ops l) = negb (match l with [] => true | _ => false end).
+Proof. destruct l; reflexivity. Qed.
+
+Lemma block_batch_meta hib b : has_key is_meta (block_batch hib b) = true.
+Proof.
+  unfold block_batch, has_key. rewrite existsb_app. apply orb_true_intro. right. reflexivity.
+Qed.
+
+Lemma block_batch_owned hib b : has_key is_owned (block_batch hib b) = true.
+Proof.
+  unfold block_batch, has_key. rewrite existsb_app. apply orb_true_intro. right. reflexivity.
+Qed.
+
+Lemma owned_fwd hib b :
+  filter touches_owned (store_writes b ++ fwd_writes hib b) = [WBatch (block_batch hib b)].
+Proof.
+  unfold store_writes, fwd_writes, fwd_pre, fwd_post.
+  cbn [map app filter touches_owned sop_key is_owned is_flat is_meta orb has_key existsb].
+  rewrite (block_batch_owned hib b). reflexivity.
+Qed.
+
+Lemma owned_store b : filter touches_owned (store_writes b) = [].
+Proof. reflexivity. Qed.
+
+Lemma back_batch_shape b pid pnum l :
+  back_writes b pid pnum = [WBatch l] ->
+  has_key is_meta l = false /\ has_key is_head l = true /\ has_key is_canon l = true.
+Proof.
+  unfold back_writes. intros E. injection E as <-. unfold has_key.
+  cbn [existsb sop_key is_meta is_head is_canon orb].
+  rewrite !existsb_app. cbn [existsb sop_key is_meta is_head is_canon orb].
+  assert (M : forall f, (forall u, f (KFlat u) = false) -> existsb (fun o => f (sop_key o)) (undo_ops b) = false).
+  { intros f Hf. unfold undo_ops, put_ops, del_ops. rewrite existsb_app.
+    assert (A : forall l0, existsb (fun o => f (sop_key o)) (map (fun p => SPut (KFlat (fst p)) (snd p)) l0) = false).
+    { induction l0 as [|x l0 IH]; [reflexivity|]. cbn [map existsb sop_key]. rewrite Hf, IH. reflexivity. }
+    assert (B : forall l0, existsb (fun o => f (sop_key o)) (map (fun p : N * N => SDel (KFlat (fst p))) l0) = false).
+    { induction l0 as [|x l0 IH]; [reflexivity|]. cbn [map existsb sop_key]. rewrite Hf, IH. reflexivity. }
+    rewrite A, B. reflexivity. }
+  rewrite ?(M is_meta (fun _ => eq_refl)), ?(M is_head (fun _ => eq_refl)), ?(M is_canon (fun _ => eq_refl)).
+  repeat split; rewrite ?orb_true_r; reflexivity.
+Qed.
+
+Lemma owned_step hib s w :
+  In w (step_writes hib s) -> touches_owned w = true ->
+  (is_block_batch w = true /\ is_fwd_step s = true) \/ (is_rollback_batch w = true /\ is_back_step s = true).
+Proof.
+  intros Hin Ht. destruct s as [b|b|b pid pnum]; cbn [step_writes] in Hin.
+  - exfalso. assert (F : In w (filter touches_owned (store_writes b))) by (apply filter_In; split; assumption).
+    rewrite owned_store in F. exact F.
+  - left. split; [|reflexivity].
+    assert (F : In w (filter touches_owned (store_writes b ++ fwd_writes hib b))).
+    { apply filter_In. split; [apply in_or_app; right; exact Hin|exact Ht]. }
+    rewrite owned_fwd in F. destruct F as [<-|[]]. cbn [is_block_batch]. apply block_batch_meta.
+  - right. split; [|reflexivity].
+    destruct (back_batch_shape b pid pnum _ eq_refl) as [A [B C]].
+    unfold back_writes in Hin. destruct Hin as [<-|[]].
+    cbn [is_rollback_batch]. rewrite A, B, C. reflexivity.
+Qed.
+
+Lemma owned_script hib ss w :
+  In w (script_writes hib ss) -> touches_owned w = true ->
+  is_block_batch w = true \/ is_rollback_batch w = true.
+Proof.
+  unfold script_writes. rewrite in_flat_map. intros [s [_ Hin]] Ht.
+  destruct (owned_step hib s w Hin Ht) as [[A _]|[A _]]; [left|right]; exact A.
+Qed.
+
+(* exactly one block batch per forward step, at most one rollback batch per rollback step, and
+   nothing else touches the owned keys *)
+Lemma owned_count hib ss :
+  length (filter is_block_batch (script_writes hib ss)) = length (filter is_fwd_step ss)
+  /\ length (filter is_rollback_batch (script_writes hib ss)) = length (filter is_back_step ss).
+Proof.
+  unfold script_writes. induction ss as [|s ss [IH1 IH2]]; [split; reflexivity|].
+  cbn [flat_map]. rewrite !filter_app, !app_length, IH1, IH2.
+  destruct s as [b|b|b pid pnum]; cbn [step_writes is_fwd_step is_back_step filter].
+  - split; reflexivity.
+  - unfold fwd_writes, fwd_pre, fwd_post.
+    cbn [app filter is_block_batch is_rollback_batch has_key existsb sop_key is_meta is_head is_canon orb andb negb length].
+    fold (has_key is_meta (block_batch hib b)). rewrite (block_batch_meta hib b).
+    cbn [negb andb length]. split; reflexivity.
+  - destruct (back_batch_shape b pid pnum _ eq_refl) as [A [B C]].
+    unfold back_writes. cbn [filter is_block_batch is_rollback_batch].
+    rewrite A, B, C. cbn [negb andb length]. split; reflexivity.
+Qed.
+
+Definition static_single_commit : bool :=
+  (borrowed_batch_flush_sites =? 0) && (borrowed_batch_bypass_sites =? 0)
+  && (0 <? borrowed_batch_functions) && (0 <? borrowed_batch_write_sites)
+  && (countN 20 append_calls =? 1)%nat && (countN 21 append_calls =? 1)%nat
+  && (countN 21 apply_calls =? 0)%nat && (countN 20 apply_calls =? 0)%nat
+  && (index_of 36 append_calls <? index_of 21 append_calls)%nat.
+
+Lemma static_single_commit_lemma :
+  static_single_commit = true
+  /\ forall hib b, filter touches_owned (store_writes b ++ fwd_writes hib b) = [WBatch (block_batch hib b)].
+Proof. split; [vm_compute; reflexivity|exact owned_fwd]. Qed.
+
 (* ------------------------------------------------------------------ static order obligations *)
 Lemma static_ext_lemma b : static_fwd_classes ext_calls = map class_of (fwd_writes head_in_batch b).
 Proof. rewrite fwd_classes. vm_compute. reflexivity. Qed.
